@@ -153,6 +153,10 @@ NT = 8
 DANGLING = (1 << 64) - 1
 
 
+class BEnc(list):
+    """encoding of a bundle; emit() records where it lands so that a twin script can permute it"""
+
+
 class WorldGen:
     """Builds one script.  Tracks, approximately, which table entries are alive and what they hold,
     so that most operations are valid; a separate share of operations is deliberately invalid."""
@@ -178,6 +182,7 @@ class WorldGen:
         self.nops = 0
         self.poisoned = [False, False]
         self.small = rnd.random() < 0.35   # few distinct types => archetype reuse, swap-remove, edge-cache hits
+        self.bundles = []        # (offset in self.out, number of items)
 
     # -- helpers
     def val(self):
@@ -204,7 +209,7 @@ class WorldGen:
         """returns (encoding, types)"""
         if allow_dup and self.r.random() < 0.5:
             ts = self.r.choice([(1, 1), (2, 2), (3, 3), (1, 2, 1)])
-            return [0, len(ts)] + [x for t in ts for x in (t, self.val())], list(ts), True
+            return BEnc([0, len(ts)] + [x for t in ts for x in (t, self.val())]), list(ts), True
         if types is None:
             if self.r.random() < 0.6:
                 types = list(self.static_tuple())
@@ -213,7 +218,7 @@ class WorldGen:
         types = list(types)
         self.r.shuffle(types)
         kind = 0 if (tuple(types) in TUPLE_SET and self.r.random() < 0.7) else 2
-        return [kind, len(types)] + [x for t in types for x in (t, self.val())], types, False
+        return BEnc([kind, len(types)] + [x for t in types for x in (t, self.val())]), types, False
 
     def alive(self, w):
         return [i for i, e in enumerate(self.table) if e["world"] == w and e["alive"]]
@@ -250,7 +255,10 @@ class WorldGen:
 
     def emit(self, *xs):
         for x in xs:
-            if isinstance(x, (list, tuple)):
+            if isinstance(x, BEnc):
+                self.bundles.append((len(self.out), x[1]))
+                self.out.extend(x)
+            elif isinstance(x, (list, tuple)):
                 self.emit(*x)
             else:
                 self.out.append(x)
@@ -335,11 +343,11 @@ class WorldGen:
                     tt = r.choice(EXT)
                     if len(set(tt)) != len(tt) and not bad:
                         tt = (1,)
-                    enc = [0, len(tt)] + [x for t in tt for x in (t, self.val())]
+                    enc = BEnc([0, len(tt)] + [x for t in tt for x in (t, self.val())])
                     its = list(tt)
                 else:
                     its = self.pick_types(r.randrange(0, 3))
-                    enc = [2, len(its)] + [x for t in its for x in (t, self.val())]
+                    enc = BEnc([2, len(its)] + [x for t in its for x in (t, self.val())])
                 self.emit(5, w, h, len(ts), list(ts), enc)
                 self.materialise(w)
                 if e is not None and e["alive"] and e["world"] == w:
@@ -554,3 +562,41 @@ RESERVE_RULE = ("engine sched: worlds with 0..4 ids on the free list; 2-3 cooper
                 "atomic step; yield hook before the atomic op), then flush; plus every split of one reserve_entities(n) "
                 "request across free list and fresh ids for n = 0..6, and real-thread stress runs (supporting). "
                 "Non-trivial = free list non-empty and at least two results, or a stress run")
+
+
+# ----------------------------------------------------------------------------- engine 2: twin scripts (C10)
+def twin_case(universe, rnd, profile, nops):
+    """a script and its twin: every bundle's fields permuted and its representation switched between a
+    static tuple and an EntityBuilder where the catalogue allows; spec-level outcome must be identical"""
+    g = WorldGen(rnd, profile)
+    for i in range(nops):
+        g.step()
+    g.probe(extra=2)
+    g.emit(21, 0, 21, 1)
+    a = list(g.out)
+    b = list(g.out)
+    for (off, n) in g.bundles:
+        kind = a[off]
+        items = [(a[off + 2 + 2 * i], a[off + 3 + 2 * i]) for i in range(n)]
+        if len(set(t for t, _ in items)) != len(items):
+            continue                      # repeated types: rejected either way; keep identical
+        rnd.shuffle(items)
+        ts = tuple(t for t, _ in items)
+        if kind == 0:
+            # exchange's static T must stay inside its own (smaller) catalogue: only switch to a builder
+            nk = 2 if rnd.random() < 0.5 else (0 if ts in TUPLE_SET and ts in set(EXT) | {()} else 2)
+        else:
+            nk = 0 if ts in set(EXT) and rnd.random() < 0.6 else 2
+        b[off] = nk
+        for i, (t, v) in enumerate(items):
+            b[off + 2 + 2 * i] = t; b[off + 3 + 2 * i] = v
+    return [2] + universe + [len(a)] + a + b
+
+
+def gen_twin(quick_n, thorough_n):
+    def gen(tier, seed, universe):
+        rnd = random.Random(seed)
+        for i in range(quick_n if tier == "quick" else thorough_n):
+            prof = ["cache", "default", "cache", "batch"][i % 4]
+            yield twin_case(universe, rnd, prof, rnd.randrange(5, 40))
+    return gen
